@@ -193,6 +193,9 @@ func (l *Life) Step() string {
 		req := world.StoreReq{Owner: o.Id, Gateway: g, Relayer: rel, DataId: did, CommitId: did, Duration: d,
 			Replica: int32(1 + r.Intn(3)), Timeout: t, Size: lifeSizes[r.Intn(len(lifeSizes))]}
 		m := &lifeModel{dataId: did, owner: o}
+		if r.Intn(8) == 0 {
+			req.Alias = world.NoAlias // unnamed model
+		}
 		if r.Intn(5) == 0 {
 			// sponsored: the sponsor's payment account submits
 			req.Sponsor = l.Sponsor.Id.DID()
@@ -593,7 +596,11 @@ func scnRecreate(ctx *check.JobCtx) {
 	mode := ctx.Arg("mode", "cancel")
 	did := w.NewDataId()
 	d1 := uint64(3600 + r.Intn(300))
-	_, oid := w.Store(world.StoreReq{Owner: o.Id, Gateway: g, DataId: did, CommitId: did, Duration: d1, Replica: 2, Timeout: 400, Size: 1_000_000})
+	alias := ""
+	if ctx.Arg("alias", "") == "none" {
+		alias = world.NoAlias // an unnamed model
+	}
+	_, oid := w.Store(world.StoreReq{Owner: o.Id, Gateway: g, DataId: did, CommitId: did, Duration: d1, Replica: 2, Timeout: 400, Size: 1_000_000, Alias: alias})
 	w.EndBlock()
 	switch mode {
 	case "cancel":
@@ -616,8 +623,8 @@ func scnRecreate(ctx *check.JobCtx) {
 	w.Advance(int64(1 + r.Intn(300)))
 	// same data id again, with a lifetime that straddles the first one's scheduled end
 	d2 := uint64(3600 + r.Intn(2500))
-	_, oid2 := w.Store(world.StoreReq{Owner: o.Id, Gateway: g, DataId: did, CommitId: did, Duration: d2, Replica: 2, Timeout: 400, Size: 1_000_000})
-	w.Case("c11:recreate:%s:accepted=%v", mode, oid2 != 0)
+	_, oid2 := w.Store(world.StoreReq{Owner: o.Id, Gateway: g, DataId: did, CommitId: did, Duration: d2, Replica: 2, Timeout: 400, Size: 1_000_000, Alias: alias})
+	w.Case("c11:recreate:%s:accepted=%v,unnamed=%v", mode, oid2 != 0, alias != "")
 	if oid2 != 0 {
 		w.CompleteAll(oid2)
 		w.EndBlock()
